@@ -161,6 +161,7 @@ def priority_stability(sym, tier):
 
 # ------------------------------------------------------------------ pipeline
 SERVICE = [(1e-9, 1), (3e-9, 3)]
+S_NS = 1_000_000_000
 
 
 class Forwarder(Entity):
@@ -482,6 +483,59 @@ def pooled_cycle(sym, tier):
     return r
 
 
+def shifted_server(sym, tier):
+    """A real ShiftedServer: 0-1 workers outside the shift, 1-2 workers during the shift [10 s, 20 s), 2 s of
+    service; 3 items arrive at symbolic whole seconds in [0, 12] (before or during the shift).  Everything is
+    processed exactly once before the shift ends, no item starts while all current workers are busy, and no
+    simulated time passes while an item waits and a worker is free (in particular when the shift begins)."""
+    from happysimulator.components.industrial.shift_schedule import Shift, ShiftedServer, ShiftSchedule
+    r = Result()
+    off_cap = sym.choice("workers_outside_shift", 2)
+    on_cap = 1 + sym.choice("workers_in_shift_minus_1", 2)
+    done = []
+    sink = Sink("sink", done)
+    sched = ShiftSchedule(shifts=[Shift(start_s=10.0, end_s=20.0, capacity=on_cap)], default_capacity=off_cap)
+    srv = ShiftedServer("ss", schedule=sched, service_time=2.0, downstream=sink)
+    sim = Simulation(entities=[srv, sink], end_time=Instant.from_seconds(40))
+    mon = Monitor(sim, cap=60)
+    m = 3
+    ts = [sym.int(f"arrive{i}", 0, 12) for i in range(m)]
+    problems = []
+    last = {"active": 0}
+
+    def on_advance(t):
+        if srv.depth > 0 and srv.has_capacity():
+            problems.append(("no_time_passes_while_item_waits_and_worker_free", t.nanoseconds // S_NS, srv.depth, srv._active, srv.current_capacity))
+
+    def on_event(e):
+        a = srv._active
+        if a > last["active"] and a > srv.current_capacity:
+            problems.append(("no_item_starts_service_above_the_limit_in_force", sim._clock.now.nanoseconds // S_NS, a, srv.current_capacity))
+        last["active"] = a
+
+    sim.control.on_time_advance(on_advance)
+    sim.control.on_event(on_event)
+    sim.schedule([mk_event(ts[i] * S_NS, f"req{i}", srv) for i in range(m)])
+    try:
+        sim.run()
+    except SpinDetected:
+        pass
+    mon.judge(r, "shifted_server")
+    for p_ in problems[:1]:
+        r.bad(p_[0], {"at_s": p_[1], "detail": p_[2:], "arrivals_s": ts, "workers_outside_shift": off_cap, "workers_in_shift": on_cap})
+    labels = [l for (l, t) in done]
+    if len(set(labels)) != len(labels):
+        r.bad("request_completed_at_most_once", labels)
+    if not mon.spun and sorted(labels) != sorted(f"req{i}" for i in range(m)):
+        r.bad("every_request_completed", {"completed": done, "arrivals_s": ts, "workers_outside_shift": off_cap, "workers_in_shift": on_cap, "left_waiting": srv.depth})
+    if off_cap == 0 and any(t < 10 for t in ts):
+        r.wit.add("arrival_while_nobody_is_on_shift")
+    if off_cap < on_cap:
+        r.wit.add("shift_start_adds_workers")
+    r.obs = {"done": done}
+    return r
+
+
 def _pipe_classify(clause, draws, obs):
     return None
 
@@ -575,4 +629,10 @@ HARNESSES = [
       functions=["PooledCycleResource.handle_event/_start_cycle"],
       bounds=lambda tier: {"items": 3, "arrivals": "symbolic ns [0,4], direct or via one forwarder hop", "units": [1, 2], "cycle ns": 2, "waiting room": ["unbounded", 1, 2]},
       outside=["other industrial variants: balking, reneging, conveyor, gate, shift schedule"]),
+    H(name="c08_shifted_server", fn=shifted_server, shape="S", budget=lambda tier: 900.0,
+      cubes=lambda tier: [{"workers_outside_shift": a, "workers_in_shift_minus_1": b} for a in range(2) for b in range(2)],
+      require=lambda tier: ["arrival_while_nobody_is_on_shift", "shift_start_adds_workers"], classify=_pipe_classify,
+      functions=["ShiftedServer.handle_event/_handle_shift_change/_schedule_next_shift/handle_queued_event/has_capacity", "ShiftSchedule.capacity_at/next_transition_after", "QueueDriver.*"],
+      bounds=lambda tier: {"items": 3, "arrivals": "symbolic whole seconds [0,12]", "shift": "[10 s, 20 s)", "workers": "0-1 outside, 1-2 inside the shift", "service s": 2},
+      outside=["several shifts", "items arriving after the shift", "other industrial variants: balking, reneging, conveyor, gate"]),
 ]
